@@ -252,6 +252,16 @@ for _p, _fams in {"C12": ["dup"], "C08": ["header"], "C09": ["msg"], "C10": ["ke
     JOBS[_p] = JOBS[_p] + [scale_job(f) for f in _fams]
 
 
+def limit_job():
+    """the parser's recursion budget seen from C08 (position of a header map) and C10 (key alone vs inside a key set): findings F10, F11"""
+    return {"module": "MC_Limit", "spec": "Spec", "invariants": ["InvBudget", "InvPosition", "Emit"],
+            "quick": {"timeout": 900, "workers": 4}, "thorough": {"timeout": 900, "workers": 4}}
+
+
+for _p in ("C08", "C10"):
+    JOBS[_p] = JOBS[_p] + [limit_job()]
+
+
 def longtext_job():
     """texts longer than ciborium's scratch buffer (streamed pull by pull); thorough only: TLC needs minutes on 8 KB sequences"""
     return {"module": "MC_LongText", "spec": "Spec", "invariants": ["InvText", "InvValue", "InvBytes", "InvCut", "InvHolders", "Emit"],
